@@ -254,9 +254,10 @@ RotOpeners(st, q) ==
   IN SelectSeq(ls, LAMBDA c : RecOpens(st, c, tr))
 
 \* res "rotated" carries the record that authenticated the request
+\* q.lf: a transient storage fault hits the lookup of the NEW key's record (the "already registered?" check): refused
 DoRotate(st, q) ==
   LET os == RotOpeners(st, q) IN
-  IF Len(os) = 0 THEN [res |-> "error", st |-> st, by |-> NONE]
+  IF Len(os) = 0 \/ q.lf THEN [res |-> "error", st |-> st, by |-> NONE]
   ELSE LET c == os[1] IN
     IF q.n2 \notin Nonces \/ st.nodes[q.k2].present THEN [res |-> "error", st |-> st, by |-> c]
     ELSE IF st.nodes[c].srv = 0
@@ -333,7 +334,8 @@ GenCertOpsAll == [op : {"GenCerts"}, k : CertKeys \cup {"kx"}, nid : NodeIds \cu
 RotateOpsAll == [op : {"Rotate"}, k : CertKeys, nid : NodeIds \cup {NONE}, order : Perms(CertKeys),
               src : CertKeys \cup {"rand"}, which : {"cur", "prev"},
               k2 : CertKeys, e2 : EncKeys, n2 : Nonces \cup Tokens,
-              ostate : StateOrNone]     \* a WithState option the caller happens to pass: must not matter
+              ostate : StateOrNone,     \* a WithState option the caller happens to pass: must not matter
+              lf : BOOLEAN]
 
 IdOrder == CHOOSE p \in Perms(CertKeys) : TRUE
 \* the delivery order only matters on the node-ID path: other requests are normalised to one order
